@@ -75,6 +75,8 @@ type Session[K any] struct {
 	prev *art.VerifTree // last dump (census / shape)
 
 	recentlyDeleted []K // last few keys removed by Delete (absent-probe candidates)
+
+	muts []mutation[K] // C15: every mutating call so far (replayed into a never-queried tree)
 }
 
 func NewSession[K any](k *kinds.Kind[K], cfg *Config, res *ev.Result, unit string) *Session[K] {
@@ -156,6 +158,9 @@ func (s *Session[K]) Insert(k K) bool {
 		return true
 	}
 	isNew := s.M.Put(s.K.Clone(k), v)
+	if s.Cfg.Has(MPurity) && len(s.muts) < 4096 {
+		s.muts = append(s.muts, mutation[K]{false, s.K.Clone(k), v})
+	}
 	s.opCount++
 	if s.Quiet {
 		return true
@@ -195,6 +200,9 @@ func (s *Session[K]) Delete(k K) {
 		return
 	}
 	want := s.M.Del(k)
+	if s.Cfg.Has(MPurity) && len(s.muts) < 4096 {
+		s.muts = append(s.muts, mutation[K]{true, s.K.Clone(k), 0})
+	}
 	if want {
 		s.recentlyDeleted = append(s.recentlyDeleted, s.K.Clone(k))
 		if len(s.recentlyDeleted) > 4 {
@@ -286,6 +294,12 @@ func (s *Session[K]) SearchAll() {
 
 // ---- generators of whole units ----
 
+type mutation[K any] struct {
+	del bool
+	k   K
+	v   uint64
+}
+
 type phase struct{ n, pIns, pDel int } // out of 100; rest = Search
 
 func (s *Session[K]) pickStored(r *rng.R) (K, bool) {
@@ -365,13 +379,17 @@ func (s *Session[K]) RunHistory(r *rng.R, nOps, poolN int) {
 	if len(s.Cfg.CheckEvery) > 0 {
 		s.every = rng.Pick(r, s.Cfg.CheckEvery)
 	}
-	if s.Res.WantSample() {
-		var ks []string
-		for i := 0; i < min(6, len(pool)); i++ {
-			ks = append(ks, s.K.Show(pool[i]))
-		}
-		s.Res.Sample(map[string]any{"unit": s.Unit, "kind": s.K.Name, "ops": nOps, "pool_size": len(pool), "first_pool_keys": ks})
+	wantSample := s.Res.WantSample()
+	var sampleKeys []string
+	for i := 0; i < min(6, len(pool)); i++ {
+		sampleKeys = append(sampleKeys, s.K.Show(pool[i]))
 	}
+	defer func() {
+		if wantSample && s.Res.WantSample() {
+			s.Res.Sample(map[string]any{"unit": s.Unit, "kind": s.K.Name, "ops": nOps, "pool_size": len(pool), "first_pool_keys": sampleKeys,
+				"first_calls": append([]string{}, s.hist[:min(12, len(s.hist))]...), "keys_at_end": s.M.Len()})
+		}
+	}()
 	step := 0
 	for _, ph := range randomPhases(r, nOps) {
 		for i := 0; i < ph.n && !s.Dead; i++ {
@@ -401,6 +419,9 @@ func (s *Session[K]) Final(r *rng.R, pool []K) {
 			}
 			s.Search(k)
 		}
+	}
+	if s.Cfg.Has(MPurity) && !s.Dead {
+		s.CheckQueryIndependence()
 	}
 	s.digestState()
 }
